@@ -1436,6 +1436,39 @@ pub fn generate(tier: &str, seed: u64, out: &mut Out) {
             }
         }
     }
+    // (a') comment stripping next to single slashes: every key, values that contain lone
+    // slashes, every shape of trailing comment (always run, both tiers)
+    for sec in [Sec::General, Sec::Editor, Sec::Metadata, Sec::Difficulty] {
+        for &(key, _, conv) in keys_of(sec) {
+            for val in ["a/b", "dir/a.mp3", "/", "a/", "/a", "1/2", "a/b/c", "a / b", "7", "1.5"] {
+                for tail in [" // x", "//x", " //", "/// x", " // / //", " / // x", "/ /", " /", "// a/b"] {
+                    let line = format!("{key}: {val}{tail}");
+                    out.count("slash.kv");
+                    run_case(sec, &[line.clone()], "slash.single", out, &mut known);
+                    if thorough || r.chance(1, 4) {
+                        let first = decorate(key, &valid_value(conv, &mut r), "space");
+                        run_case(sec, &[first, line], "slash.after_valid", out, &mut known);
+                    }
+                }
+            }
+        }
+    }
+    for name in ["\"dir/bg.jpg\"", "dir/bg.jpg", "\"a/b/c.png\"", "\"/bg.jpg\"", "\"bg.jpg/\"", "\"d/v.mp4\"", "\"d\\e/f.png\""] {
+        for tail in [" // c", "//c", " //", " / // c", ",0,0 // c", ",0,0 / // c"] {
+            for ty in ["0", "Video", "4"] {
+                let line = if ty == "4" { format!("4,Background,Centre,{name}{tail}") } else { format!("{ty},0,{name}{tail}") };
+                out.count("slash.event");
+                run_case(Sec::Events, &[line.clone()], "slash.event", out, &mut known);
+                run_case(Sec::Events, &[s("0,0,\"first.png\",0,0"), line], "slash.event", out, &mut known);
+            }
+        }
+    }
+    for key in COLOUR_KEYS {
+        for line in [format!("{key} : 1,2,3 // x"), format!("{key} : 1,2,3 / // x"), format!("{key} : 1/2,2,3 // x"), format!("{key} : 10,20,30// / x")] {
+            out.count("slash.colour");
+            run_case(Sec::Colors, &[s("SliderBorder: 9,9,9"), line], "slash.colour", out, &mut known);
+        }
+    }
     // colour matrix
     for key in COLOUR_KEYS {
         for (val, _) in colour_values() {
